@@ -39,7 +39,7 @@ def run(chk):
                 continue
             case = {"B": B.tolist(), "option": opt, "lin_idx": L, "n_sensors": N, "n_const_sensors": s, "all_sensors": A, "mode": ["generic", "inactive", "s0"][mode]}
             try:
-                piv, steps = R.run_gqr(B, opt, L, A, N, s)
+                piv, steps = R.run_gqr(B, opt, L, A, N, s, reuse=(chk.evaluations % 2 == 1))
             except Exception as e:
                 chk.count("gqr-rejected:" + type(e).__name__)
                 continue
